@@ -119,7 +119,12 @@ pub fn generate(seed: u64, tier: Tier) -> History {
         }
     }
     let mut probes_init: Vec<String> = vec![];
-    let all_keys = gen::key_pool(n_notes + n_future, with_dirs);
+    let mut all_keys = gen::key_pool(n_notes + n_future, with_dirs);
+    if all_keys.len() >= 2 && swarm.chance(1, 12) {
+        // two notes whose names differ only in letter case
+        all_keys[0] = "Todo".into();
+        all_keys[1] = "todo".into();
+    }
     let lib_keys: Vec<String> = all_keys[..n_notes].to_vec();
     let mut targets = all_keys.clone();
     targets.push("zz".to_string());
@@ -597,6 +602,21 @@ pub fn run(h: &History, with_patches: bool) -> Outcome {
                             Ok((_, fshapes)) => {
                                 if let Err(b) = walker::same_shapes(&shapes, &fshapes) {
                                     broken = Some((kind.clone(), b));
+                                }
+                            }
+                        }
+                        // 9. the block found at a line of a note is a live block of that note
+                        if broken.is_none() {
+                            'outer: for (key, text) in &model {
+                                let k = Key::from_file_name(key);
+                                for line in 0..text.lines().count() + 1 {
+                                    if let Ok(Some(id)) = guarded(|| g.get_node_id_at(&k, line)) {
+                                        let ok = (id as usize) < g.nodes().len() && !g.graph_node(id).is_empty() && guarded(|| g.key_of(id)).ok() == Some(k.clone());
+                                        if !ok {
+                                            broken = Some((kind.clone(), walker::Broken { invariant: 9, what: format!("the block found at line {} of note {} is block {}, which is {}", line, key, id, if (id as usize) < g.nodes().len() && g.graph_node(id).is_empty() { "a removed block" } else { "not a block of that note" }) }));
+                                            break 'outer;
+                                        }
+                                    }
                                 }
                             }
                         }
